@@ -478,14 +478,27 @@ def aligned_short_read(ctx, hcls, hp):
     consts = module_consts(hcls.module)
     g = C.cfg_of(nx)
     rdf = ReachDefs(nx, g)
+    def self_attr(e, f_):
+        return isinstance(e, ast.Attribute) and isinstance(e.value, ast.Name) and e.value.id == f_.self_name
     reads = [n for n in own_nodes(nx.node) if isinstance(n, ast.Assign) and isinstance(n.value, ast.Call) and isinstance(n.value.func, ast.Attribute) and n.value.func.attr == "readinto"
-             and n.value.args and isinstance(n.value.args[0], ast.Name) and isinstance(n.targets[0], ast.Name)]
+             and n.value.args and (isinstance(n.value.args[0], ast.Name) or self_attr(n.value.args[0], nx)) and isinstance(n.targets[0], ast.Name)]
     if len(reads) != 1:
         ctx.undecided("C15.3", nx, "expected one readinto in the v1 hasher's __next__, found %d" % len(reads))
         return
-    buf, sz = reads[0].value.args[0].id, reads[0].targets[0].id
+    barg = reads[0].value.args[0]
+    sz = reads[0].targets[0].id
     rn = C.stmt_node(ctx, nx, reads[0])
-    cap, fresh = buffer_info(ctx, nx, g, rdf, buf, rn)
+    if isinstance(barg, ast.Name):
+        buf = barg.id
+        cap, fresh = buffer_info(ctx, nx, g, rdf, buf, rn)
+    else:
+        # a buffer kept on the object: allocated somewhere else, reused between reads
+        from .c01 import _attr_alloc
+        buf = "<self>." + barg.attr
+        cap, fresh = _attr_alloc(ctx, nx, barg.attr), False
+
+    def is_buf(e, f_):
+        return (isinstance(e, ast.Name) and e.id == buf) or (self_attr(e, f_) and "<self>." + e.attr == buf)
     PL = Lin.atom("self.piece_length")
     want = canon([("data",), ("zeros", PL.sub(N))])
 
@@ -505,17 +518,26 @@ def aligned_short_read(ctx, hcls, hp):
     def is_sha1_in(fn):
         return lambda call: C.is_ext_call(ctx, call, fn, ("hashlib.sha1",))
 
+    def whole_buffer():
+        if cap is None:
+            raise Unknown("capacity of the read buffer %r could not be determined" % buf)
+        capl = lin_of(ast.parse(cap.replace(hp.self_name + ".", nx.self_name + "."), mode="eval").body, consts)
+        if capl is None:
+            raise Unknown("capacity %s of the read buffer is outside the term language" % cap)
+        return [("data",), ("zeros", capl.sub(N))] if fresh else [("data",), ("stale",)]
+
+    def hp_leaf(e):
+        # the handler reads the very buffer of the object that __next__ filled
+        if buf.startswith("<self>.") and is_buf(e, hp):
+            return whole_buffer()
+        return None
+
     def nx_leaf(e):
-        if isinstance(e, ast.Subscript) and isinstance(e.value, ast.Name) and e.value.id == buf and isinstance(e.slice, ast.Slice) \
+        if isinstance(e, ast.Subscript) and is_buf(e.value, nx) and isinstance(e.slice, ast.Slice) \
                 and e.slice.lower is None and e.slice.step is None and norm(e.slice.upper) == sz:
             return [("data",)]
-        if isinstance(e, ast.Name) and e.id == buf:
-            if cap is None:
-                raise Unknown("capacity of the read buffer %r could not be determined" % buf)
-            capl = lin_of(ast.parse(cap, mode="eval").body, consts)
-            if capl is None:
-                raise Unknown("capacity %s of the read buffer is outside the term language" % cap)
-            return [("data",), ("zeros", capl.sub(N))] if fresh else [("data",), ("stale",)]
+        if is_buf(e, nx):
+            return whole_buffer()
         return None
 
     def nx_int(x):
@@ -563,7 +585,7 @@ def aligned_short_read(ctx, hcls, hp):
                         vals[p_] = ("bytes", it.ev_bytes(a))
                     except Unknown:
                         vals[p_] = ("int", it.ev_int(a))
-                got = partial_handler(ctx, hp, vals, consts, is_sha1_in(hp))
+                got = partial_handler(ctx, hp, vals, consts, is_sha1_in(hp), hp_leaf)
             else:
                 got = it.hashed(v)
         except Unknown as exc:
@@ -582,11 +604,11 @@ class Continued(Exception):
     pass
 
 
-def partial_handler(ctx, hp, arg_parts, consts, is_sha1):
+def partial_handler(ctx, hp, arg_parts, consts, is_sha1, leaf=None):
     """What the partial-piece handler hashes for `arg_parts` when self.align is on: follow its statements with the switch
     decided; a loop that opens the next file is the unaligned behaviour."""
     from .bytes_seq import Interp, Unknown
-    it = Interp(is_sha1, lambda e: None, lambda x: None, consts)
+    it = Interp(is_sha1, leaf or (lambda e: None), lambda x: None, consts)
     for p_, (kind, val) in arg_parts.items():
         if kind == "bytes":
             it.bytes_env[p_] = list(val)
